@@ -1,10 +1,10 @@
 //@PROBE file=src/utils/nms.rs test=verif_probe_nms_c14 clauses=nms
-//@BOUND lists of 0..=4 boxes exhaustively over a 12-box alphabet (clustered, nested, duplicated, rotated - three of them handed over after gen_vertices() and a later edit of their public fields -, two invalid) and 1500 pseudo-random lists of 5..=14 boxes; with/without scores (scores from a 5-value grid, ties included); nms thresholds {0.1, 0.3, 0.5, 0.8}; score thresholds {None, below, inside, above the score range}
+//@BOUND lists of 0..=4 boxes exhaustively over a 16-box alphabet (coverage fractions computed by an independent f64 clipper, not by the library) (clustered, nested, duplicated, rotated - three of them handed over after gen_vertices() and a later edit of their public fields -, two invalid) and 1500 pseudo-random lists of 5..=14 boxes; with/without scores (scores from a 5-value grid, ties included); nms thresholds {0.1, 0.3, 0.5, 0.8}; score thresholds {None, below, inside, above the score range}
 #[cfg(test)]
 mod verif_probe_nms_c14 {
     // Bounded stand-in for the contract of nms() (for-loops with `continue`, enumerate() and HashSet are outside
     // Verus's subset; one HashSet operation costs minutes in CBMC).  The postcondition below is the property
-    // statement; coverage fractions are computed with the library's own intersection()/area() (their exactness is C08).
+    // statement; coverage fractions are computed by an independent f64 clipper (not the library's intersection()/too_far()).
     use super::*;
 
     fn alphabet() -> Vec<Universal2DBox> {
@@ -19,6 +19,10 @@ mod verif_probe_nms_c14 {
             Universal2DBox::new(14.0, 13.0, Some(2.1), 0.6, 12.0),     // rotated, partial
             Universal2DBox::new(10.0, 10.0, None, 1.2, 30.0),          // big box containing the cluster
             Universal2DBox::new(13.0, 12.0, Some(-0.4), 1.5, 6.0),     // rotated small
+            Universal2DBox::new(50.0, 50.0, Some(std::f32::consts::FRAC_PI_2), 4.0, 2.0),   // 8 x 2 upright (rotated by a right angle)
+            Universal2DBox::new(50.0, 53.0, Some(std::f32::consts::FRAC_PI_2), 4.0, 2.0),   // the same, shifted by 3 along its long side: 62.5% covered
+            Universal2DBox::new(50.5, 50.0, Some(1.0471976), 5.0, 2.0),                     // 10 x 2 at 60 degrees
+            Universal2DBox::new(51.75, 52.165, Some(1.0471976), 5.0, 2.0),                  // the same, shifted by 2.5 along its long side
             Universal2DBox::new(10.0, 10.0, None, 1.0, 0.0),           // invalid: zero height
             Universal2DBox::new(10.0, 10.0, None, -1.0, 10.0),         // invalid: negative aspect
         ]
@@ -37,8 +41,33 @@ mod verif_probe_nms_c14 {
         }).collect()
     }
 
+    // coverage of `k` by `h`, computed INDEPENDENTLY of the library's intersection()/too_far(): f64 convex clipping in k's frame
+    type P = (f64, f64);
+    fn corners(b: &Universal2DBox, ox: f64, oy: f64) -> Vec<P> {
+        let (a, hw, hh) = (b.angle.unwrap_or(0.0) as f64, (b.height as f64) * (b.aspect as f64) / 2.0, (b.height as f64) / 2.0);
+        [(-hw, -hh), (hw, -hh), (hw, hh), (-hw, hh)].iter().map(|(x, y)| (b.xc as f64 - ox + x * a.cos() - y * a.sin(), b.yc as f64 - oy + x * a.sin() + y * a.cos())).collect()
+    }
+    fn clip(subject: &[P], clipper: &[P]) -> Vec<P> {
+        let mut out = subject.to_vec();
+        for i in 0..clipper.len() {
+            let (a, b) = (clipper[i], clipper[(i + 1) % clipper.len()]);
+            let side = |p: P| (b.0 - a.0) * (p.1 - a.1) - (b.1 - a.1) * (p.0 - a.0);
+            let inp = out; out = vec![];
+            for j in 0..inp.len() {
+                let (p, q) = (inp[j], inp[(j + 1) % inp.len()]);
+                let (sp, sq) = (side(p), side(q));
+                if sp >= 0.0 { out.push(p); }
+                if (sp >= 0.0) != (sq >= 0.0) { let t = sp / (sp - sq); out.push((p.0 + t * (q.0 - p.0), p.1 + t * (q.1 - p.1))); }
+            }
+            if out.is_empty() { break; }
+        }
+        out
+    }
     fn cov(h: &Universal2DBox, k: &Universal2DBox) -> f32 {
-        Universal2DBox::intersection(h, k) as f32 / k.area()
+        let (ox, oy) = (k.xc as f64, k.yc as f64);
+        let p = clip(&corners(h, ox, oy), &corners(k, ox, oy));
+        let inter = if p.len() < 3 { 0.0 } else { 0.5 * (0..p.len()).map(|i| p[i].0 * p[(i + 1) % p.len()].1 - p[(i + 1) % p.len()].0 * p[i].1).sum::<f64>().abs() };
+        (inter / ((k.height as f64) * (k.height as f64) * (k.aspect as f64))) as f32
     }
 
     /// evaluates the contract of nms() on one input; returns the violated clause
@@ -70,12 +99,12 @@ mod verif_probe_nms_c14 {
         for (pos, &k) in kept.iter().enumerate() {
             for &h in &kept[..pos] {
                 let c = cov(&geo[h], &geo[k]);
-                if c > thr { return Err(format!("nms.kept_not_covered_by_higher_kept: kept #{} is covered {} > {} by kept higher-ranked #{}", k, c, thr, h)); }
+                if c > thr + 1e-3 { return Err(format!("nms.kept_not_covered_by_higher_kept: kept #{} is covered {} > {} by kept higher-ranked #{}", k, c, thr, h)); }
             }
         }
         for &d in &passing {
             if kept.contains(&d) { continue; }
-            let ok = kept.iter().any(|&k| rank(k) >= rank(d) && cov(&geo[k], &geo[d]) > thr);
+            let ok = kept.iter().any(|&k| rank(k) >= rank(d) && cov(&geo[k], &geo[d]) > thr - 1e-3);
             if !ok { return Err(format!("nms.dropped_is_covered_by_kept_higher: #{} was dropped but no kept box of at least its rank covers more than {} of it", d, thr)); }
         }
         // idempotence: applying nms to its own output (same scores) changes nothing
@@ -122,7 +151,7 @@ mod verif_probe_nms_c14 {
             for code in 0..total {
                 let mut sel = vec![]; let mut x = code;
                 for _ in 0..len { sel.push(x % al.len()); x /= al.len(); }
-                if len == 4 && code % 5 != 0 { continue; }
+                if len == 4 && code % 11 != 0 { continue; }
                 run(&sel, code % 2 == 0, code, &mut failures);
             }
         }
